@@ -89,3 +89,8 @@ package css_parser
 //@   opt auto-counters 1
 //@   prop C16
 
+
+// C12 (CSS Color 4, 4.2.1): a percentage colour channel p% denotes p x 255 / 100. The value handed to the rounding
+// must be computed in that order: scaling by the pre-rounded constant 255/100 = 2.55 makes 50% come out as
+// 127.49999999999999 -> 127 (#7f) where the number form 127.5 gives 128 (#80).
+//@ flow percent-channel-scaling C12: func=parseColorByte ; in=css_parser ; site=call Round ; scenario=percent_channel_rounding ; argpath=0:*#0*255/100 OR *#0*scale
